@@ -53,13 +53,13 @@ func writeKind(f *types.Func) string {
 		return "u32"
 	case "WriteUint64", "WriteInt64":
 		return "u64"
-	case "WriteString8Length":
+	case "WriteString8Length", "WriteBytes8Length":
 		return "str8"
-	case "WriteString16Length":
+	case "WriteString16Length", "WriteBytes16Length":
 		return "str16"
-	case "WriteString32Length":
+	case "WriteString32Length", "WriteBytes32Length":
 		return "str32"
-	case "WriteString64Length":
+	case "WriteString64Length", "WriteBytes64Length":
 		return "str64"
 	case "Write", "WriteString":
 		return "raw"
@@ -80,13 +80,13 @@ func readKind(f *types.Func) string {
 		return "u32"
 	case "ReadUInt64", "ReadUint64", "ReadInt64":
 		return "u64"
-	case "ReadString8Length":
+	case "ReadString8Length", "ReadBytes8Length":
 		return "str8"
-	case "ReadString16Length":
+	case "ReadString16Length", "ReadBytes16Length":
 		return "str16"
-	case "ReadString32Length":
+	case "ReadString32Length", "ReadBytes32Length":
 		return "str32"
-	case "ReadString64Length":
+	case "ReadString64Length", "ReadBytes64Length":
 		return "str64"
 	case "ReadBytes", "Read", "ReadString8", "Read1String16", "ReadString32", "ReadString64":
 		return "raw"
